@@ -108,10 +108,28 @@ class Interp(object):
 
     # -- symbolic locals -------------------------------------------------------
     def subst(self, node, state):
-        senv = state.get('senv')
-        if not senv or not any(isinstance(n, ast.Name) and n.id in senv for n in ast.walk(node)):
+        senv = state.get('senv') or {}
+        consts = self.constants()
+        uses_const = bool(consts) and any((isinstance(n, ast.Name) and ('', n.id) in consts and n.id not in senv) or
+                                          (isinstance(n, ast.Attribute) and isinstance(n.value, ast.Name) and (n.value.id, n.attr) in consts)
+                                          for n in ast.walk(node))
+        if not uses_const and (not senv or not any(isinstance(n, ast.Name) and n.id in senv for n in ast.walk(node))):
             return node
         new = normal._Subst(dict(senv)).visit(normal.clone(node))
+        if uses_const:
+            locals_ = self._local_names()
+
+            class C(ast.NodeTransformer):
+                def visit_Attribute(s2, n):
+                    if isinstance(n.value, ast.Name) and (n.value.id, n.attr) in consts and isinstance(n.ctx, ast.Load):
+                        return normal.clone(consts[(n.value.id, n.attr)])
+                    return s2.generic_visit(n)
+
+                def visit_Name(s2, n):
+                    if isinstance(n.ctx, ast.Load) and ('', n.id) in consts and n.id not in locals_:
+                        return normal.clone(consts[('', n.id)])
+                    return n
+            new = C().visit(new)
         if self.key_equals is not None:
             new = self._fold_lookups(new, state)
         for n in ast.walk(new):
@@ -139,6 +157,63 @@ class Interp(object):
                         return ast.copy_location(ast.Constant(value=val), n)
                 return n
         return F().visit(node)
+
+    def constants(self):
+        '''literal tables the function can see: module-level NAME = <literal> and, in a method, class-level NAME = <literal>
+        reached as self.NAME / cls.NAME / <Class>.NAME (only when nothing in the module re-binds or mutates them)'''
+        if getattr(self, '_consts', None) is not None:
+            return self._consts
+        out = {}
+        mod = getattr(self.fn, '_module', None)
+        if mod is not None:
+            def literal(v):
+                try:
+                    ast.literal_eval(v)
+                    return isinstance(v, (ast.Dict, ast.Tuple, ast.List, ast.Set, ast.Constant))
+                except Exception:
+                    return False
+
+            def touched(name):
+                for n in ast.walk(mod.tree):
+                    if isinstance(n, (ast.Assign, ast.AugAssign, ast.Delete)):
+                        tg = n.targets if hasattr(n, 'targets') else [n.target]
+                        for t in tg:
+                            for x in ast.walk(t):
+                                if isinstance(x, ast.Subscript) and ((isinstance(x.value, ast.Name) and x.value.id == name) or
+                                                                     (isinstance(x.value, ast.Attribute) and x.value.attr == name)):
+                                    return True
+                    if isinstance(n, ast.Call) and isinstance(n.func, ast.Attribute) and n.func.attr in (
+                            'append', 'add', 'update', 'pop', 'clear', 'setdefault', 'remove', 'extend', 'insert', 'popitem') and \
+                            ((isinstance(n.func.value, ast.Name) and n.func.value.id == name) or
+                             (isinstance(n.func.value, ast.Attribute) and n.func.value.attr == name)):
+                        return True
+                return False
+            counts = {}
+            for n in mod.tree.body:
+                if isinstance(n, ast.Assign) and len(n.targets) == 1 and isinstance(n.targets[0], ast.Name):
+                    counts[n.targets[0].id] = counts.get(n.targets[0].id, 0) + 1
+            for n in mod.tree.body:
+                if isinstance(n, ast.Assign) and len(n.targets) == 1 and isinstance(n.targets[0], ast.Name) and literal(n.value) \
+                        and isinstance(n.value, (ast.Dict, ast.Tuple, ast.List, ast.Set)) \
+                        and counts[n.targets[0].id] == 1 and not touched(n.targets[0].id):
+                    out[('', n.targets[0].id)] = n.value
+            cls = getattr(self.fn, '_parent', None)
+            if isinstance(cls, ast.ClassDef):
+                for n in cls.body:
+                    if isinstance(n, ast.Assign) and len(n.targets) == 1 and isinstance(n.targets[0], ast.Name) and literal(n.value) \
+                            and isinstance(n.value, (ast.Dict, ast.Tuple, ast.List, ast.Set)) and not touched(n.targets[0].id) \
+                            and not any(isinstance(x, ast.Attribute) and x.attr == n.targets[0].id and isinstance(x.ctx, (ast.Store, ast.Del))
+                                        for x in ast.walk(mod.tree)):
+                        for recv in ('self', 'cls', cls.name):
+                            out[(recv, n.targets[0].id)] = n.value
+        self._consts = out
+        return out
+
+    def _local_names(self):
+        if getattr(self, '_locals', None) is None:
+            self._locals = {n.id for n in ast.walk(self.fn) if isinstance(n, ast.Name) and isinstance(n.ctx, ast.Store)} | \
+                {a.arg for a in ast.walk(self.fn) if isinstance(a, ast.arg)}
+        return self._locals
 
     def kill(self, names, state):
         senv = state.get('senv')
@@ -228,7 +303,7 @@ class Interp(object):
         if isinstance(node, ast.Name) and node.id in state.get('bvars', {}):
             return state['bvars'][node.id]
         if self.symbolic:
-            # locals the rule cannot know are replaced by what they stand for before any atom looks at the test
+            # locals (and literal tables) the rule cannot know are replaced by what they stand for before any atom looks at the test
             node2 = self.subst(node, state)
             if node2 is not node:
                 node2 = _simplify_test(node2)
@@ -297,7 +372,7 @@ class Interp(object):
         if self._bool_assign(st, state, trace):
             return True
         cands = [st]
-        if self.symbolic and state.get('senv'):
+        if self.symbolic:
             st2 = self.subst(st, state)
             if st2 is not st:
                 cands = [st2, st]
